@@ -765,7 +765,10 @@ def symbolic_comprehension(I, e, frame, sub, kind, it):
         if not g.ifs:
             j = z3.Int(f"comp_j_{e.lineno}")
             I.assign(g.target, wrap(ety, src[j]), sub)
-            val = I.eval(e.elt, sub)
+            # the element expression is evaluated for a generic VALID index (j in range)
+            okv, val = I.try_nofork(lambda: I.eval(e.elt, sub), guard=z3.And(j >= 0, j < z3.Length(src)))
+            if not okv:
+                raise Unsupported(f"comprehension at line {e.lineno}: element expression forks or raises on a generic element")
             rty = ty_of_value(val)
             if not rty.pure:
                 raise Unsupported("comprehension element type")
